@@ -102,7 +102,8 @@ def render_handler(spec, ctx_text, id_text):
     if spec.get("invalid") == "notclosure":
         return '{ run: 5 }'
     out = ["$env.n = %d" % spec.get("env0", 0), "{", "  run: {|frame|", "    $env.n = $env.n + 1"]
-    first = True
+    out.append('    if $frame.topic == "xs.barrier" {\n      "b"\n    }')       # the runner's quiescence barrier
+    first = False
     closed = False
     for r in spec["rules"]:
         body = render_rule_body(r, ctx_text)
@@ -457,8 +458,42 @@ def run_impl(sc, keep_dir=False, settle_ms=250):
     def id_text(step_i):
         return hex_to_b36(step_ids.get(step_i, ZERO))
 
+    raw_regs = set()     # ids of `.register` frames whose script was given verbatim (no barrier rule)
+
+    def quiesce(max_s=12.0):
+        """quiescence that does not rely on silence (a handler may work for a long time without writing anything):
+        a barrier frame is appended to every context and every instance that is active answers it - handlers work
+        through their subscription in order, so the answer means everything before the barrier has been dealt with"""
+        bar = {}
+        for c in out["ctxs"]:
+            o = w.call(frame_op("append", "xs.barrier", c))
+            if isinstance(o.get("ok"), dict):
+                bar[c] = hex_to_b36(o["ok"]["id"])
+        deadline = time.time() + max_s
+        while time.time() < deadline:
+            frames = w.call({"op": "tap"})["ok"]["frames"]
+            active, answered = {}, set()
+            for f in frames:
+                m = meta_of(f) or {}
+                hid = m.get("handler_id")
+                if not is_id_text(hid):
+                    continue
+                t = unhx(f["topic"])
+                if t.endswith(".registered") and "tail" in m:
+                    active[hid] = f["ctx"]
+                elif t.endswith(".unregistered"):
+                    active.pop(hid, None)
+                elif m.get("frame_id") == bar.get(f["ctx"]):
+                    answered.add(hid)
+            waiting = [h for h, c in active.items() if h not in answered and b36_to_hex(h) not in raw_regs and c in bar]
+            if not waiting:
+                break
+            time.sleep(0.05)
+        w.call({"op": "settle", "ms": 150, "max_ms": 4000})     # commands / generators: short-lived, no barrier
+
     def close_epoch():
         ep = out["epochs"][-1]
+        quiesce()
         t = w.call({"op": "tap"})["ok"]
         ep["tap"], ep["sync"] = t["frames"], t["sync"]
 
@@ -491,6 +526,8 @@ def run_impl(sc, keep_dir=False, settle_ms=250):
                 obs = w.call(frame_op("append", st["name"] + ".register", ctx_hex(st["ctx"]), content=text))
                 if isinstance(obs.get("ok"), dict):
                     step_ids[i] = obs["ok"]["id"]
+                    if st["spec"].get("raw"):
+                        raw_regs.add(obs["ok"]["id"])
             elif k == "define":
                 text = render_command(st["spec"], ctx_text)
                 out["scripts"][i] = text
@@ -710,7 +747,7 @@ def handler_cfg(st, reg_frame):
 
 
 def model_rules(sp, ctxs):
-    out = []
+    out = [] if sp.get("raw") else [{"topic": "xs.barrier", "ret": '"b"', "fail": False, "appends": []}]
     for r in sp["rules"]:
         out.append({"topic": r["topic"], "ret": r["ret"], "fail": bool(r.get("fail")),
                     "appends": [{"topic": a["topic"], "meta": a["meta"], "ttl": a.get("ttl"),
